@@ -100,3 +100,613 @@ Lemma f8_publish_error :
   let t := trace 3 [3] f8_script3 [] in
   In (EWritten 0 3 1) t /\ acked_pub_in t 0 2 = false.
 Proof. vm_compute. split; auto 20. Qed.
+
+(* ====================================================================================== *)
+(* 3. Trace extension                                                                       *)
+(* ====================================================================================== *)
+Definition extP (P : event -> Prop) (s s' : rst) : Prop :=
+  exists e, tr s' = e ++ tr s /\ Forall P e.
+
+Lemma extP_refl P s : extP P s s.
+Proof. exists []. split; [reflexivity|constructor]. Qed.
+
+Lemma extP_trans P s1 s2 s3 : extP P s1 s2 -> extP P s2 s3 -> extP P s1 s3.
+Proof.
+  intros (e1 & H1 & F1) (e2 & H2 & F2). exists (e2 ++ e1). split.
+  - rewrite H2, H1, app_assoc. reflexivity.
+  - apply Forall_app; split; assumption.
+Qed.
+
+Lemma extP_weaken (P Q : event -> Prop) s s' : (forall e, P e -> Q e) -> extP P s s' -> extP Q s s'.
+Proof. intros H (e & He & F). exists e. split; [assumption|]. eapply Forall_impl; eauto. Qed.
+
+Lemma extP_in P s s' x : extP P s s' -> In x (tr s) -> In x (tr s').
+Proof. intros (e & He & _) H. rewrite He. apply in_or_app. now right. Qed.
+
+Lemma extP_new P s s' x : extP P s s' -> In x (tr s') -> In x (tr s) \/ P x.
+Proof.
+  intros (e & He & F) H. rewrite He in H. apply in_app_or in H. destruct H as [H|H]; [|now left].
+  right. rewrite Forall_forall in F. auto.
+Qed.
+
+Lemma extP_emit (P : event -> Prop) x s : P x -> extP P s (emit x s).
+Proof. intros H. exists [x]. split; [reflexivity|]. constructor; [assumption|constructor]. Qed.
+
+Lemma extP_same P s s' : tr s' = tr s -> extP P s s'.
+Proof. intros H. exists []. split; [assumption|constructor]. Qed.
+
+(* events of a publish phase *)
+Definition is_pubev (e : event) : Prop :=
+  match e with EPub _ _ _ _ _ _ | EPubErr _ _ _ _ => True | _ => False end.
+(* events that may be added while the worker is busy with batch b *)
+Definition ev_ok (b : nat) (e : event) : Prop :=
+  match e with
+  | ECons c cur => cur = b /\ c_b c = b
+  | EWritten _ _ _ => False
+  | _ => True
+  end.
+Lemma is_pubev_ok b e : is_pubev e -> ev_ok b e.
+Proof. destruct e; simpl; tauto. Qed.
+
+(* ====================================================================================== *)
+(* 4. Ghost labels are truthful, for ALL scripts                                            *)
+(* ====================================================================================== *)
+Definition QG (q : list conf) (t : list event) : Prop := forall c, In c q -> In (pub_of c) t.
+Definition T2 (t : list event) : Prop := forall c cur, In (ECons c cur) t -> In (pub_of c) t.
+Definition GI (s : rst) : Prop := QG (queue s) (tr s) /\ T2 (tr s).
+
+Lemma QG_mono q t t' : (forall x, In x t -> In x t') -> QG q t -> QG q t'.
+Proof. intros H Q c Hc. auto. Qed.
+
+Lemma pop_p_spec s a s1 : pop_p s = (a, s1) ->
+  tr s1 = tr s /\ queue s1 = queue s /\ closed s1 = closed s /\ confirms s1 = confirms s /\
+  next_tag s1 = next_tag s /\ has_chan s1 = has_chan s /\ handler s1 = handler s /\ chan_id s1 = chan_id s /\
+  ss s1 = ss s /\
+  ((ps s = [] /\ a = PConf true false /\ ps s1 = []) \/ ps s = a :: ps s1).
+Proof.
+  unfold pop_p. destruct (ps s) as [|a' r] eqn:E; intros H; inversion H; subst; simpl; rewrite ?E; intuition.
+Qed.
+
+Lemma send_GI b att : forall ms s s' ok, GI s -> send b att ms s = (s', ok) -> GI s'.
+Proof.
+  induction ms as [|m r IH]; intros s s' ok G H; simpl in H.
+  - inversion H; subst; assumption.
+  - destruct (closed s); [inversion H; subst; assumption|].
+    destruct (pop_p s) as [a s1] eqn:Hp.
+    destruct (pop_p_spec _ _ _ Hp) as (Ht & Hq & _).
+    destruct G as [Q T].
+    destruct a as [ack cl|cl|].
+    + eapply IH; [|exact H]. split; simpl.
+      * intros c Hc. apply in_app_or in Hc. destruct Hc as [Hc|[<-|[]]].
+        -- right. rewrite Ht. apply Q. rewrite <- Hq. assumption.
+        -- left. reflexivity.
+      * intros c cur [Hc|Hc]; [discriminate|]. right. rewrite Ht in *. eauto.
+    + inversion H; subst. split.
+      * destruct cl; simpl; [intros c []|]. intros c Hc. right. rewrite Ht. apply Q. rewrite <- Hq. assumption.
+      * intros c cur Hc. destruct cl; simpl in *; (destruct Hc as [Hc|Hc]; [discriminate|]); right; rewrite Ht in *; eauto.
+    + eapply IH; [|exact H]. split; simpl.
+      * intros c [].
+      * intros c cur [Hc|Hc]; [discriminate|]. right. rewrite Ht in *. eauto.
+Qed.
+
+Lemma wait_GI cur desired : forall q s s' w,
+  QG q (tr s) -> T2 (tr s) -> wait_loop cur desired q s = (s', w) -> GI s'.
+Proof.
+  induction q as [|c q IH]; intros s s' w Q T H; simpl in H.
+  - destruct (desired <=? confirms s)%N; [inversion H; subst; split; simpl; auto|].
+    destruct (closed s); inversion H; subst; split; simpl; auto; intros c [].
+  - destruct (desired <=? confirms s)%N; [inversion H; subst; split; simpl; auto|].
+    destruct (closed s); [inversion H; subst; split; simpl; auto|].
+    assert (T' : T2 (ECons c cur :: tr s)).
+    { intros c' cur' [Hc|Hc]; right; [inversion Hc; subst; apply Q; now left|eauto]. }
+    assert (Q' : QG q (ECons c cur :: tr s)).
+    { intros c' Hc'. right. apply Q. now right. }
+    destruct (c_ack c).
+    + destruct (c_close c).
+      * destruct (desired <=? c_tag c)%N; inversion H; subst; split; simpl; auto; intros c' [].
+      * eapply IH; [| |exact H]; simpl; assumption.
+    + inversion H; subst. destruct (c_close c); split; simpl; auto. intros c' [].
+Qed.
+
+Lemma pop_s_spec s a s1 : pop_s s = (a, s1) ->
+  tr s1 = tr s /\ queue s1 = queue s /\ closed s1 = closed s /\ confirms s1 = confirms s /\
+  next_tag s1 = next_tag s /\ has_chan s1 = has_chan s /\ handler s1 = handler s /\ chan_id s1 = chan_id s /\
+  ps s1 = ps s.
+Proof.
+  unfold pop_s. destruct (ss s) as [|a' r] eqn:E; intros H; inversion H; subst; simpl; intuition.
+Qed.
+
+Lemma T2_cons e t : (forall c cur, e <> ECons c cur) -> T2 t -> T2 (e :: t).
+Proof. intros Hne T c cur [H|H]; [exfalso; eapply Hne; eauto|right; eauto]. Qed.
+
+Lemma setup_GI s s' ok : GI s -> setup s = (s', ok) -> GI s'.
+Proof.
+  unfold setup. intros [Q T] H. destruct (has_chan s); [inversion H; subst; split; assumption|].
+  destruct (pop_s s) as [a s1] eqn:Hp. destruct (pop_s_spec _ _ _ Hp) as (Ht & Hq & _).
+  destruct a; inversion H; subst; split; simpl; rewrite ?Ht, ?Hq;
+    try (intros c []); try (apply T2_cons; [intros; discriminate|assumption]).
+  - intros c Hc. right. auto.
+  - intros c Hc. right. auto.
+Qed.
+
+Lemma handler_GI s : GI s -> GI (handler_step s).
+Proof.
+  unfold handler_step. intros [Q T]. destruct (has_chan s && closed s && handler s); split; simpl; auto.
+  intros c [].
+Qed.
+
+Lemma emit_GI e s : (forall c cur, e <> ECons c cur) -> GI s -> GI (emit e s).
+Proof.
+  intros Hne [Q T]. split; simpl; [|apply T2_cons; assumption]. intros c Hc. right. auto.
+Qed.
+
+Lemma attempt_GI b att ms s s' r : GI s -> attempt b att ms s = (s', r) -> GI s'.
+Proof.
+  unfold attempt. intros G H. destruct (setup s) as [s1 ok] eqn:Hs.
+  pose proof (setup_GI _ _ _ G Hs) as G1.
+  destruct ok; simpl in H; [|inversion H; subst; assumption].
+  destruct (send b att ms s1) as [s2 ok2] eqn:Hd.
+  pose proof (send_GI _ _ _ _ _ _ G1 Hd) as G2.
+  destruct ok2; simpl in H; [|inversion H; subst; assumption].
+  destruct (wait_loop b _ (queue s2) s2) as [s3 w] eqn:Hw.
+  destruct G2 as [Q2 T2']. pose proof (wait_GI _ _ _ _ _ _ Q2 T2' Hw) as G3.
+  destruct w; inversion H; subst; assumption.
+Qed.
+
+Lemma attempts_GI b : forall retries att ms s s' r, GI s -> attempts retries b att ms s = (s', r) -> GI s'.
+Proof.
+  induction retries as [|k IH]; intros att ms s s' r G H; simpl in H;
+    destruct (attempt b att ms s) as [s1 a] eqn:Ha;
+    pose proof (attempt_GI _ _ _ _ _ _ G Ha) as G1;
+    destruct a as [|rem|]; try (inversion H; subst; auto using handler_GI; fail);
+    destruct (N.of_nat (List.length ms) <? rem)%N; try (inversion H; subst; assumption).
+  - inversion H; subst. apply emit_GI; [intros; discriminate|]. apply emit_GI; [intros; discriminate|].
+    apply handler_GI; assumption.
+  - eapply IH; [|exact H]. apply emit_GI; [intros; discriminate|]. apply handler_GI; assumption.
+Qed.
+
+Lemma run_batches_GI retries : forall sizes b s s' f, GI s -> run_batches retries b sizes s = (s', f) -> GI s'.
+Proof.
+  induction sizes as [|n r IH]; intros b s s' f G H; simpl in H.
+  - inversion H; subst; assumption.
+  - destruct (attempts retries b 0 (seq 0 n) s) as [s1 res] eqn:Ha.
+    pose proof (attempts_GI _ _ _ _ _ _ _ G Ha) as G1.
+    destruct res; try (inversion H; subst; assumption).
+    eapply IH; [|exact H]. apply emit_GI; [intros; discriminate|assumption].
+Qed.
+
+(* every confirmation the worker ever reads answers a publish recorded in the trace, with the
+   verdict the broker gave to that publish *)
+Theorem ghost_sound retries sizes ps ss c cur :
+  In (ECons c cur) (trace retries sizes ps ss) -> In (pub_of c) (trace retries sizes ps ss).
+Proof.
+  unfold trace, run. destruct (run_batches retries 0 sizes (init_st ps ss)) as [s f] eqn:H. simpl.
+  assert (G0 : GI (init_st ps ss)) by (split; simpl; [intros x []|intros x y []]).
+  destruct (run_batches_GI _ _ _ _ _ _ G0 H) as [_ T].
+  rewrite <- !in_rev. apply T.
+Qed.
+
+(* ====================================================================================== *)
+(* 5. Scripts in which every failure closes the channel                                     *)
+(* ====================================================================================== *)
+
+(* the content of publishNotify answers, in order, the publishes of messages [ms] of batch b,
+   with consecutive tags from [base], and contains no nack that leaves the channel open *)
+Fixpoint qmatch (b : nat) (base : N) (ms : list nat) (q : list conf) : Prop :=
+  match ms, q with
+  | [], [] => True
+  | m :: ms', c :: q' =>
+      c_tag c = base /\ c_m c = m /\ c_b c = b /\ (c_ack c || c_close c = true) /\
+      qmatch b (base + 1) ms' q'
+  | _, _ => False
+  end.
+
+Lemma qmatch_snoc b : forall ms q base m c,
+  qmatch b base ms q -> c_tag c = (base + N.of_nat (List.length ms))%N -> c_m c = m -> c_b c = b ->
+  c_ack c || c_close c = true -> qmatch b base (ms ++ [m]) (q ++ [c]).
+Proof.
+  induction ms as [|m0 ms IH]; intros q base m c Hq Ht Hm Hb Hs; destruct q as [|c0 q]; simpl in *; try tauto.
+  - rewrite N.add_0_r in Ht. intuition.
+  - destruct Hq as (H1 & H2 & H3 & H4 & H5). repeat split; try assumption.
+    apply IH; try assumption. lia.
+Qed.
+
+(* state between two attempts *)
+Definition sync (s : rst) : Prop :=
+  closure_only (ps s) = true /\
+  (closed s = true -> queue s = []) /\
+  (closed s = false -> has_chan s = true -> queue s = [] /\ next_tag s = (confirms s + 1)%N).
+
+Definition hc (t : list event) (b m : nat) : Prop :=
+  exists c, In (ECons c b) t /\ c_ack c = true /\ c_b c = b /\ c_m c = m.
+
+Lemma hc_mono P s s' b m : extP P s s' -> hc (tr s) b m -> hc (tr s') b m.
+Proof. intros E (c & H & R). exists c. split; [eapply extP_in; eauto|assumption]. Qed.
+
+Lemma send_closed b att ms s : closed s = true -> send b att ms s = (s, match ms with [] => true | _ => false end).
+Proof. intros H. destruct ms; simpl; [reflexivity|]. rewrite H. reflexivity. Qed.
+
+Lemma send_sync b att : forall ms s s' ok ms0 base,
+  closure_only (ps s) = true -> closed s = false ->
+  qmatch b base ms0 (queue s) -> next_tag s = (base + N.of_nat (List.length ms0))%N ->
+  send b att ms s = (s', ok) ->
+  closure_only (ps s') = true /\ confirms s' = confirms s /\ has_chan s' = has_chan s /\
+  extP is_pubev s s' /\
+  ((ok = true /\ closed s' = false /\ qmatch b base (ms0 ++ ms) (queue s') /\
+    next_tag s' = (base + N.of_nat (List.length (ms0 ++ ms)))%N)
+   \/ (closed s' = true /\ queue s' = [])).
+Proof.
+  induction ms as [|m r IH]; intros s s' ok ms0 base Hps Hcl Hq Hn H; simpl in H.
+  - inversion H; subst. rewrite app_nil_r. repeat split; auto using extP_refl.
+  - rewrite Hcl in H. destruct (pop_p s) as [a s1] eqn:Hp.
+    destruct (pop_p_spec _ _ _ Hp) as (Ht & Hqq & Hc1 & Hcf & Hnt & Hhc & Hh & Hid & Hss & Hpp).
+    assert (Hsafe : safe_act a = true /\ closure_only (ps s1) = true).
+    { destruct Hpp as [(E & -> & E1)|E]; [rewrite E1; split; reflexivity|].
+      unfold closure_only in *. rewrite E in Hps. simpl in Hps. apply andb_true_iff in Hps. assumption. }
+    destruct Hsafe as [Hsa Hps1].
+    destruct a as [ack cl|cl|]; simpl in Hsa.
+    + match type of H with send _ _ _ ?S = _ => set (sN := S) in * end.
+      assert (E : extP is_pubev s sN).
+      { exists [EPub (chan_id s1) (next_tag s1) b m att (Some ack)]. split; [simpl; rewrite Ht; reflexivity|].
+        constructor; [exact I|constructor]. }
+      specialize (IH sN s' ok (ms0 ++ [m]) base).
+      destruct IH as (I1 & I2 & I3 & I4 & I5); try assumption.
+      * simpl. rewrite Hc1. assumption.
+      * simpl. rewrite Hqq. apply qmatch_snoc; simpl; try assumption; try reflexivity. rewrite Hnt. assumption.
+      * simpl. rewrite Hnt, Hn, app_length. simpl. lia.
+      * simpl in I2, I3. rewrite Hcf in I2. rewrite Hhc in I3.
+        split; [assumption|]. split; [assumption|]. split; [assumption|].
+        split; [eapply extP_trans; eauto|].
+        rewrite <- app_assoc in I5. simpl in I5. assumption.
+    + subst cl. inversion H; subst. simpl. rewrite Hcf, Hhc.
+      repeat split; auto.
+      exists [EPubErr (chan_id s1) b m att]. split; [simpl; rewrite Ht; reflexivity|].
+      constructor; [exact I|constructor].
+    + match type of H with send _ _ _ ?S = _ => set (sN := S) in * end.
+      rewrite (send_closed b att r sN) in H by reflexivity. inversion H; subst.
+      simpl. rewrite Hcf, Hhc. repeat split; auto.
+      exists [EPub (chan_id s1) (next_tag s1) b m att None]. split; [simpl; rewrite Ht; reflexivity|].
+      constructor; [exact I|constructor].
+Qed.
+
+Lemma wait_sync b : forall q ms s s' w desired,
+  closed s = false -> qmatch b (confirms s + 1) ms q ->
+  desired = (confirms s + N.of_nat (List.length ms))%N ->
+  wait_loop b desired q s = (s', w) ->
+  ps s' = ps s /\ next_tag s' = next_tag s /\ has_chan s' = has_chan s /\
+  extP (ev_ok b) s s' /\
+  exists k, k <= List.length ms /\ Forall (hc (tr s') b) (firstn k ms) /\
+    ((w = WDone /\ k = List.length ms /\ queue s' = [] /\ (closed s' = false -> confirms s' = desired))
+     \/ (exists r, w = WFail r /\ N.to_nat r = List.length ms - k /\ k < List.length ms /\
+                   closed s' = true /\ queue s' = [])).
+Proof.
+  induction q as [|c q IH]; intros ms s s' w desired Hcl Hq Hd H; simpl in H.
+  - destruct ms; [|simpl in Hq; tauto]. simpl in Hd. rewrite N.add_0_r in Hd.
+    replace (desired <=? confirms s)%N with true in H by (symmetry; apply N.leb_le; lia).
+    inversion H; subst s' w. simpl. repeat split; auto using extP_same.
+    exists 0. split; [lia|]. split; [constructor|]. left. auto.
+  - destruct ms as [|m ms]; [simpl in Hq; tauto|]. simpl in Hq.
+    destruct Hq as (Htag & Hm & Hb & Hsafe & Hq).
+    simpl List.length in Hd.
+    replace (desired <=? confirms s)%N with false in H by (symmetry; apply N.leb_gt; lia).
+    rewrite Hcl in H.
+    destruct (c_ack c) eqn:Hack.
+    + destruct (c_close c) eqn:Hclose.
+      * (* ack, then the channel closes *)
+        assert (Hcons : hc (ECons c b :: tr s) b m).
+        { exists c. split; [now left|]. auto. }
+        destruct (desired <=? c_tag c)%N eqn:Hle; inversion H; subst s' w; simpl;
+          (split; [reflexivity|]); (split; [reflexivity|]); (split; [reflexivity|]);
+          (split; [exists [ECons c b]; split; [reflexivity|]; constructor; [simpl; auto|constructor]|]).
+        -- apply N.leb_le in Hle. simpl List.length in Hle.
+           assert (List.length ms = 0) by lia. destruct ms; [|discriminate].
+           exists 1. split; [simpl; lia|]. split; [simpl; constructor; [assumption|constructor]|].
+           left. repeat split; auto. intros; discriminate.
+        -- apply N.leb_gt in Hle. simpl List.length in Hle.
+           exists 1. split; [simpl; lia|]. split; [simpl; constructor; [assumption|constructor]|].
+           right. eexists. split; [reflexivity|]. simpl List.length. repeat split; auto; lia.
+      * (* ack, channel stays open *)
+        match type of H with wait_loop _ _ _ ?S = _ => set (s2 := S) in * end.
+        specialize (IH ms s2 s' w desired).
+        destruct IH as (I1 & I2 & I3 & I4 & k & Hk & HF & Hres); try assumption.
+        -- simpl. rewrite Htag. assumption.
+        -- simpl. rewrite Htag, Hd. simpl List.length. lia.
+        -- simpl in I1, I2, I3.
+           split; [assumption|]. split; [assumption|]. split; [assumption|].
+           assert (E2 : extP (ev_ok b) s s2).
+           { exists [ECons c b]. split; [reflexivity|]. constructor; [simpl; auto|constructor]. }
+           split; [eapply extP_trans; eauto|].
+           exists (S k). split; [simpl; lia|]. split.
+           ++ simpl. constructor; [|assumption].
+              eapply hc_mono; [exact I4|]. exists c. split; [now left|]. auto.
+           ++ destruct Hres as [(-> & -> & R)|(r & -> & Hr & Hlt & R)].
+              ** left. auto.
+              ** right. exists r. simpl List.length. repeat split; try tauto; lia.
+    + (* nack: by the restriction it closes the channel *)
+      simpl in Hsafe. rewrite Hsafe in H. inversion H; subst s' w. simpl.
+      split; [reflexivity|]. split; [reflexivity|]. split; [reflexivity|].
+      split; [exists [ECons c b]; split; [reflexivity|]; constructor; [simpl; auto|constructor]|].
+      exists 0. split; [lia|]. split; [constructor|].
+      right. eexists. split; [reflexivity|]. simpl List.length. repeat split; auto; lia.
+Qed.
+
+Lemma sync_emit e s : sync s -> sync (emit e s).
+Proof. intros H. exact H. Qed.
+
+Lemma sync_handler s : sync s -> sync (handler_step s).
+Proof.
+  unfold handler_step, sync. intros (H1 & H2 & H3).
+  destruct (has_chan s && closed s && handler s); simpl; [|auto].
+  split; [assumption|]. split; intros; discriminate.
+Qed.
+
+Lemma handler_tr s : tr (handler_step s) = tr s.
+Proof. unfold handler_step. destruct (has_chan s && closed s && handler s); reflexivity. Qed.
+
+Lemma setup_sync b s s1 ok : sync s -> setup s = (s1, ok) ->
+  sync s1 /\ (ok = true -> has_chan s1 = true) /\ extP (ev_ok b) s s1.
+Proof.
+  unfold setup. intros Hs H. destruct (has_chan s) eqn:Hh.
+  - inversion H; subst. auto using extP_refl.
+  - destruct (pop_s s) as [a s0] eqn:Hp.
+    destruct (pop_s_spec _ _ _ Hp) as (Ht & Hq & Hc & Hcf & Hn & Hhc & _ & _ & Hps).
+    destruct Hs as (S1 & S2 & S3).
+    assert (E : forall k ch x, tr x = ESetup k ch :: tr s0 -> extP (ev_ok b) s x).
+    { intros k ch x Hx. exists [ESetup k ch]. split; [rewrite Hx, Ht; reflexivity|].
+      constructor; [exact I|constructor]. }
+    destruct a; inversion H; subst; (split; [|split; [|eapply E; reflexivity]]);
+      try discriminate; try reflexivity; unfold sync; simpl; rewrite ?Hps, ?Hc, ?Hq, ?Hhc, ?Hn, ?Hcf;
+      try (split; [assumption|]; split; [discriminate|intros; split; reflexivity]); auto.
+Qed.
+
+Definition attempt_post (b : nat) (ms : list nat) (s' : rst) (r : ares) : Prop :=
+  match r with
+  | AOk => Forall (hc (tr s') b) ms
+  | AFail rem => N.to_nat rem <= List.length ms /\
+                 ((0 < rem)%N -> Forall (hc (tr s') b) (firstn (List.length ms - N.to_nat rem) ms))
+  | ABlocked => False
+  end.
+
+Lemma sync_closed s : closure_only (ps s) = true -> closed s = true -> queue s = [] -> sync s.
+Proof. intros P C Q. split; [assumption|]. split; [auto|]. rewrite C. discriminate. Qed.
+
+Lemma wait_closed cur desired s : closed s = true -> (confirms s < desired)%N ->
+  wait_loop cur desired [] s = (set_queue [] s, WFail (desired - confirms s)%N).
+Proof.
+  intros C L. simpl. replace (desired <=? confirms s)%N with false by (symmetry; apply N.leb_gt; lia).
+  rewrite C. reflexivity.
+Qed.
+
+Lemma attempt_post_fail0 b ms s : attempt_post b ms s (AFail 0).
+Proof. simpl. split; [lia|intros; lia]. Qed.
+
+Lemma attempt_sync b att ms s s' r :
+  sync s -> attempt b att ms s = (s', r) ->
+  sync s' /\ extP (ev_ok b) s s' /\ attempt_post b ms s' r.
+Proof.
+  unfold attempt. intros Hs H. destruct (setup s) as [s1 ok] eqn:Hset.
+  destruct (setup_sync b _ _ _ Hs Hset) as (Hs1 & Hhas & E1).
+  destruct ok; simpl in H; [|inversion H; subst; split; [assumption|]; split; [assumption|apply attempt_post_fail0]].
+  specialize (Hhas eq_refl).
+  destruct (send b att ms s1) as [s2 ok2] eqn:Hsend.
+  destruct Hs1 as (P1 & C1 & O1).
+  destruct (closed s1) eqn:Hc1.
+  - (* the channel is closed and nobody resets it (no closeHandler) *)
+    rewrite send_closed in Hsend by assumption. inversion Hsend; subst s2 ok2.
+    destruct ms as [|m ms]; simpl in H.
+    + rewrite (C1 eq_refl) in H. simpl in H. rewrite N.leb_refl in H.
+      inversion H; subst. split; [|split; [|simpl; constructor]].
+      * apply sync_closed; auto.
+      * eapply extP_trans; [exact E1|]. apply extP_same. reflexivity.
+    + inversion H; subst. split; [apply sync_closed; auto|]. split; [assumption|].
+      apply attempt_post_fail0.
+  - destruct (O1 eq_refl Hhas) as (Q1 & N1).
+    destruct (send_sync b att ms s1 s2 ok2 [] (confirms s1 + 1)%N P1 Hc1) as (P2 & Cf2 & H2 & E2 & D);
+      [rewrite Q1; exact I|simpl; lia|assumption|].
+    assert (E12 : extP (ev_ok b) s s2).
+    { eapply extP_trans; [exact E1|]. eapply extP_weaken; [|exact E2]. apply is_pubev_ok. }
+    destruct D as [(-> & Hc2 & Hqm & Hn2)|(Hc2 & Hq2)].
+    + simpl in H, Hqm, Hn2.
+      destruct (wait_loop b (N.of_nat (List.length ms) + confirms s2) (queue s2) s2) as [s3 w] eqn:Hw.
+      rewrite N.add_comm in Hw.
+      assert (Hqm2 : qmatch b (confirms s2 + 1) ms (queue s2)) by (rewrite Cf2; assumption).
+      destruct (wait_sync b (queue s2) ms s2 s3 w _ Hc2 Hqm2 eq_refl Hw)
+        as (P3 & N3 & H3 & E3 & k & Hk & HF & R).
+      assert (E13 : extP (ev_ok b) s s3) by (eapply extP_trans; eauto).
+      destruct R as [(-> & -> & Q3 & C3)|(rem & -> & Hrem & Hlt & C3 & Q3)]; inversion H; subst.
+      * split; [|split; [assumption|]].
+        -- split; [rewrite P3; assumption|]. split; [auto|]. intros Hc3 _. split; [assumption|].
+           rewrite N3, Hn2, (C3 Hc3), Cf2. lia.
+        -- simpl. rewrite firstn_all in HF. assumption.
+      * split; [apply sync_closed; auto; rewrite P3; assumption|]. split; [assumption|].
+        simpl. split; [lia|]. intros _. replace (List.length ms - N.to_nat rem) with k by lia. assumption.
+    + (* the channel closed during the publish phase *)
+      destruct ok2; cbn [negb] in H.
+      * destruct ms as [|m ms].
+        -- simpl in Hsend. inversion Hsend; subst s2. congruence.
+        -- rewrite Hq2, wait_closed in H by (simpl List.length; lia || assumption).
+           cbv beta iota in H. apply pair_equal_spec in H. destruct H as [<- <-].
+           split; [apply sync_closed; auto|]. split.
+           ++ eapply extP_trans; [exact E12|]. apply extP_same. reflexivity.
+           ++ unfold attempt_post. split; [lia|]. intros _.
+              match goal with |- Forall _ (firstn ?n _) => replace n with 0 by lia end.
+              constructor.
+      * inversion H; subst. split; [apply sync_closed; auto|]. split; [assumption|].
+        apply attempt_post_fail0.
+Qed.
+
+Lemma skipn_seq j : forall k len, skipn j (seq k len) = seq (k + j) (len - j).
+Proof.
+  induction j as [|j IH]; intros k len; simpl.
+  - rewrite Nat.add_0_r, Nat.sub_0_r. reflexivity.
+  - destruct len; simpl; [reflexivity|]. rewrite IH. f_equal. lia.
+Qed.
+
+Lemma in_firstn_seq j : forall k len m, k <= m < k + j -> m < k + len -> In m (firstn j (seq k len)).
+Proof.
+  induction j as [|j IH]; intros k len m H1 H2; [lia|]. destruct len; [lia|]. simpl.
+  destruct (Nat.eq_dec k m); [left; assumption|right; apply IH; lia].
+Qed.
+
+Lemma attempts_eq retries b att ms s :
+  attempts retries b att ms s =
+  let (s1, r) := attempt b att ms s in
+  match r with
+  | AOk => (handler_step s1, BWritten)
+  | ABlocked => (s1, BBlocked)
+  | AFail rem =>
+      if (N.of_nat (List.length ms) <? rem)%N then (s1, BPanic) else
+      let ms' := if (0 <? rem)%N then skipn (List.length ms - N.to_nat rem) ms else ms in
+      let s2 := handler_step s1 in
+      let s3 := emit (EAttemptFail b att (confirms s2) (List.length (queue s2))) s2 in
+      match retries with
+      | O => (emit (EGiveUp b) s3, BGiveUp)
+      | S k => attempts k b (S att) ms' s3
+      end
+  end.
+Proof. destruct retries; reflexivity. Qed.
+
+Lemma attempts_sync n b : forall retries att k s s' r,
+  sync s -> k <= n -> (forall m, m < k -> hc (tr s) b m) ->
+  attempts retries b att (seq k (n - k)) s = (s', r) ->
+  sync s' /\ extP (ev_ok b) s s' /\ (r = BWritten \/ r = BGiveUp) /\
+  (r = BWritten -> forall m, m < n -> hc (tr s') b m).
+Proof.
+  induction retries as [|retries IH]; intros att k s s' r Hs Hk Hold H;
+    rewrite attempts_eq in H;
+    destruct (attempt b att (seq k (n - k)) s) as [s1 a] eqn:Ha;
+    destruct (attempt_sync _ _ _ _ _ _ Hs Ha) as (S1 & E1 & Post);
+    (destruct a as [|rem|]; [| |destruct Post]).
+  1,3: (apply pair_equal_spec in H; destruct H as [<- <-];
+        split; [apply sync_handler; assumption|];
+        split; [eapply extP_trans; [exact E1|]; apply extP_same; apply handler_tr|];
+        split; [left; reflexivity|]; intros _ m Hm; rewrite handler_tr;
+        destruct (Nat.lt_ge_cases m k) as [Hlt|Hge];
+        [eapply hc_mono; [exact E1|auto]|];
+        simpl in Post; rewrite Forall_forall in Post; apply Post; apply in_seq; lia).
+  all: simpl in Post; rewrite seq_length in Post, H; destruct Post as (Hle & Hpre);
+    replace (N.of_nat (n - k) <? rem)%N with false in H by (symmetry; apply N.ltb_ge; lia);
+    cbv zeta in H;
+    set (s3 := emit (EAttemptFail b att (confirms (handler_step s1)) (List.length (queue (handler_step s1)))) (handler_step s1)) in *;
+    assert (S3 : sync s3) by (apply sync_emit, sync_handler; assumption);
+    assert (E13 : extP (ev_ok b) s1 s3)
+      by (exists [EAttemptFail b att (confirms (handler_step s1)) (List.length (queue (handler_step s1)))];
+          split; [simpl; rewrite handler_tr; reflexivity|constructor; [exact I|constructor]]);
+    assert (E3 : extP (ev_ok b) s s3) by (eapply extP_trans; eauto).
+  - apply pair_equal_spec in H. destruct H as [<- <-].
+    split; [apply sync_emit; assumption|].
+    split; [eapply extP_trans; [exact E3|]; apply extP_emit; exact I|].
+    split; [right; reflexivity|discriminate].
+  - set (j := if (0 <? rem)%N then n - k - N.to_nat rem else 0).
+    assert (Hms : (if (0 <? rem)%N then skipn (n - k - N.to_nat rem) (seq k (n - k)) else seq k (n - k))
+                  = seq (k + j) (n - (k + j))).
+    { unfold j. destruct (0 <? rem)%N.
+      - rewrite skipn_seq. f_equal. lia.
+      - rewrite Nat.add_0_r. reflexivity. }
+    rewrite Hms in H.
+    destruct (IH (S att) (k + j) s3 s' r S3) as (I1 & I2 & I3 & I4); [unfold j; destruct (0 <? rem)%N; lia| |exact H|].
+    + intros m Hm. destruct (Nat.lt_ge_cases m k) as [Hlt|Hge].
+      * eapply hc_mono; [exact E3|auto].
+      * unfold j in Hm. destruct (0 <? rem)%N eqn:Hr; [|lia].
+        apply N.ltb_lt in Hr. specialize (Hpre Hr). rewrite Forall_forall in Hpre.
+        assert (Hin : In m (firstn (n - k - N.to_nat rem) (seq k (n - k)))) by (apply in_firstn_seq; lia).
+        specialize (Hpre _ Hin).
+        eapply hc_mono; [exact E13|exact Hpre].
+    + split; [assumption|]. split; [eapply extP_trans; eauto|]. split; assumption.
+Qed.
+
+Definition Wr (all : list nat) (t : list event) : Prop :=
+  forall b cf q n m, In (EWritten b cf q) t -> nth_error all b = Some n -> m < n -> hc t b m.
+Definition NC (t : list event) : Prop := forall c cur, In (ECons c cur) t -> c_b c = cur.
+
+Lemma Wr_ext all b s s' : extP (ev_ok b) s s' -> Wr all (tr s) -> Wr all (tr s').
+Proof.
+  intros E W b' cf q n m Hin Hn Hm. destruct (extP_new _ _ _ _ E Hin) as [Hold|[]].
+  eapply hc_mono; [exact E|]. eapply W; eauto.
+Qed.
+
+Lemma NC_ext b s s' : extP (ev_ok b) s s' -> NC (tr s) -> NC (tr s').
+Proof.
+  intros E N c cur Hin. destruct (extP_new _ _ _ _ E Hin) as [Hold|[H1 H2]]; [auto|congruence].
+Qed.
+
+Lemma run_sync retries all : forall sizes pre s s' f,
+  all = pre ++ sizes -> sync s -> Wr all (tr s) -> NC (tr s) ->
+  run_batches retries (List.length pre) sizes s = (s', f) ->
+  Wr all (tr s') /\ NC (tr s') /\ (f = FDone \/ f = FTerminated).
+Proof.
+  induction sizes as [|n rest IH]; intros pre s s' f Hall Hs W N H; simpl in H.
+  - inversion H; subst. auto.
+  - set (b := List.length pre) in *.
+    destruct (attempts retries b 0 (seq 0 n) s) as [s1 res] eqn:Ha.
+    replace (seq 0 n) with (seq 0 (n - 0)) in Ha by (rewrite Nat.sub_0_r; reflexivity).
+    destruct (attempts_sync n b retries 0 0 s s1 res Hs) as (S1 & E1 & Hres & Hhc); [lia|intros; lia|exact Ha|].
+    pose proof (Wr_ext _ _ _ _ E1 W) as W1. pose proof (NC_ext _ _ _ E1 N) as N1.
+    destruct res; try (destruct Hres; discriminate); try (inversion H; subst; auto; fail).
+    specialize (Hhc eq_refl).
+    set (s2 := emit (EWritten b (confirms s1) (List.length (queue s1))) s1) in *.
+    assert (E2 : extP (fun e => e = EWritten b (confirms s1) (List.length (queue s1))) s1 s2)
+      by (apply extP_emit; reflexivity).
+    apply (IH (pre ++ [n]) s2 s' f).
+    + rewrite <- app_assoc. assumption.
+    + apply sync_emit. assumption.
+    + intros b' cf q n' m Hin Hn Hm. eapply hc_mono; [exact E2|].
+      destruct Hin as [Heq|Hin].
+      * inversion Heq; subst b'. rewrite Hall in Hn. unfold b in Hn.
+        rewrite nth_error_app2, Nat.sub_diag in Hn by lia. simpl in Hn. inversion Hn; subst n'. auto.
+      * eapply W1; eauto.
+    + intros c cur [Heq|Hin]; [discriminate|auto].
+    + rewrite app_length. simpl. rewrite Nat.add_1_r. exact H.
+Qed.
+
+(* Under the restriction "every broker-side failure closes the channel" both halves of C13 hold,
+   for every retry budget, batch sequence, publish script and channel-opening script. *)
+Theorem written_confirmed_partial retries sizes ps ss :
+  closure_only ps = true ->
+  (forall b cf q n m, In (EWritten b cf q) (trace retries sizes ps ss) ->
+     nth_error sizes b = Some n -> m < n -> confirmed_in (trace retries sizes ps ss) b m) /\
+  (forall c cur, In (ECons c cur) (trace retries sizes ps ss) -> c_b c = cur).
+Proof.
+  intros Hsafe.
+  assert (HWN : Wr sizes (trace retries sizes ps ss) /\ NC (trace retries sizes ps ss)).
+  { unfold trace, run. destruct (run_batches retries 0 sizes (init_st ps ss)) as [s f] eqn:H. simpl.
+    destruct (run_sync retries sizes sizes [] (init_st ps ss) s f eq_refl) as (W & N & _); try assumption.
+    - split; [exact Hsafe|]. split; simpl; [discriminate|intros _; discriminate].
+    - intros b cf q n m [].
+    - intros c cur [].
+    - split.
+      + intros b cf q n m Hin Hn Hm. rewrite <- in_rev in Hin.
+        destruct (W b cf q n m Hin Hn Hm) as (c & Hc & R). exists c. rewrite <- in_rev. auto.
+      + intros c cur Hin. rewrite <- in_rev in Hin. auto. }
+  destruct HWN as [W N]. split; [|exact N].
+  intros b cf q n m Hin Hn Hm. destruct (W b cf q n m Hin Hn Hm) as (c & Hc & Ha & Hb & Hmm).
+  exists c. repeat split; try assumption. eapply ghost_sound; eauto.
+Qed.
+
+(* ... and the worker neither blocks for ever nor panics on a slice bound *)
+Theorem closure_only_ends retries sizes ps ss :
+  closure_only ps = true ->
+  snd (run retries sizes ps ss) = FDone \/ snd (run retries sizes ps ss) = FTerminated.
+Proof.
+  intros Hsafe. unfold run. destruct (run_batches retries 0 sizes (init_st ps ss)) as [s f] eqn:H. simpl.
+  destruct (run_sync retries sizes sizes [] (init_st ps ss) s f eq_refl) as (_ & _ & F); try assumption.
+  - split; [exact Hsafe|]. split; simpl; [discriminate|intros _; discriminate].
+  - intros b cf q n m [].
+  - intros c cur [].
+Qed.
+
+(* routing key and persistence: what the model hands to Channel.Publish *)
+Theorem routing_key_fact exch retries bs ps ss o :
+  In o (fst (observe exch retries bs ps ss)) ->
+  match o with
+  | OPub _ _ e key body mode | OPubErr _ e key body mode =>
+      e = exch /\ mode = persistent /\
+      exists x, key = (m_table x ++ "." ++ m_op x)%string /\ body = m_body x
+  | _ => True
+  end.
+Proof.
+  unfold observe. destruct (run retries (map (@List.length msg) bs) ps ss) as [s f]. simpl.
+  intros H. apply in_flat_map in H. destruct H as (e & _ & He).
+  destruct e; simpl in He; try (destruct He as [<-|[]]; try exact I; repeat split; eexists; split; reflexivity).
+  destruct He.
+Qed.
